@@ -549,11 +549,146 @@ theorem repairIndex_reads_covered (t : List (Nat × Nat)) :
   simp only [repairIndexCmd, List.mem_map]
   exact ⟨x, hx, rfl⟩
 
+/-! #### repair index on a repository state: the un-indexed packs -/
+
+open Rustic.Index in
+theorem lookupRemove_mem_other {j s : Nat} {l rest : List (Nat × Nat)} (h : lookupRemove j l = some (s, rest))
+    {e : Nat × Nat} (he : e ∈ l) (hne : e.1 ≠ j) : e ∈ rest := by
+  induction l generalizing rest with
+  | nil => cases he
+  | cons x xs ih =>
+    obtain ⟨i, s0⟩ := x
+    simp only [lookupRemove] at h
+    by_cases hi : i = j
+    · simp only [hi, if_true, Option.some.injEq, Prod.mk.injEq] at h
+      obtain ⟨_, rfl⟩ := h
+      rcases List.mem_cons.1 he with rfl | he
+      · exact absurd hi hne
+      · exact he
+    · simp only [hi, if_false] at h
+      cases hr : lookupRemove j xs with
+      | none => rw [hr] at h; cases h
+      | some v =>
+        obtain ⟨s', r'⟩ := v
+        rw [hr] at h
+        simp only [Option.some.injEq, Prod.mk.injEq] at h
+        obtain ⟨rfl, rfl⟩ := h
+        rcases List.mem_cons.1 he with rfl | he
+        · exact List.mem_cons_self
+        · exact List.mem_cons_of_mem _ (ih hr he)
+
+open Rustic.Index in
+/-- `check_pack` on an entry for ANOTHER pack leaves a listed pack in `self.packs` -/
+theorem checkOne_keeps_other (readAll : Bool) (a : CheckAcc) (pd : IndexPack × Bool) {e : Nat × Nat}
+    (he : e ∈ a.remaining) (hne : pd.1.id ≠ e.1) : e ∈ (checkOne readAll a pd).remaining := by
+  unfold checkOne
+  cases hl : lookupRemove pd.1.id a.remaining with
+  | none => exact he
+  | some v =>
+    obtain ⟨size, rest⟩ := v
+    have := lookupRemove_mem_other hl he (Ne.symm hne)
+    simp only
+    split <;> exact this
+
+open Rustic.Index in
+theorem foldl_checkOne_keeps_other (readAll : Bool) (L : List (IndexPack × Bool)) (a : CheckAcc) {e : Nat × Nat}
+    (he : e ∈ a.remaining) (hne : ∀ pd ∈ L, pd.1.id ≠ e.1) : e ∈ (L.foldl (checkOne readAll) a).remaining := by
+  induction L generalizing a with
+  | nil => exact he
+  | cons pd L ih =>
+    simp only [List.foldl_cons]
+    exact ih _ (checkOne_keeps_other readAll a pd he (hne pd List.mem_cons_self))
+      (fun q hq => hne q (List.mem_cons_of_mem _ hq))
+
+open Rustic.Index in
+theorem foldl_repairFile_keeps_other (readAll : Bool) (files : List IndexFile) (st : RepairAcc) {e : Nat × Nat}
+    (he : e ∈ st.remaining) (hne : ∀ f ∈ files, ∀ pd ∈ f.allPacks, pd.1.id ≠ e.1) :
+    e ∈ (files.foldl (repairFile readAll) st).remaining := by
+  induction files generalizing st with
+  | nil => exact he
+  | cons f files ih =>
+    simp only [List.foldl_cons]
+    refine ih _ ?_ (fun g hg => hne g (List.mem_cons_of_mem _ hg))
+    simp only [repairFile]
+    exact foldl_checkOne_keeps_other readAll f.allPacks _ he (hne f List.mem_cons_self)
+
+/-- `pack_read_header` = the packs an index entry sent to a re-read, followed by the packs of the repository no index entry
+claimed — by definition of `into_pack_to_read` -/
+theorem packReadHeader_split (store : List (Nat × Nat)) (files : List Rustic.Index.IndexFile) (readAll : Bool) :
+    packReadHeader store files readAll =
+      fromIndex store files readAll ++ (unindexed store files readAll).map (fun e => (e.1, none, e.2)) := rfl
+
+/-- the C08 model of the whole command (`Model/Index.lean repairIndex`) reads the headers of exactly `packReadHeader` -/
+theorem repairIndex_reads_packReadHeader (readHeader : Nat → Option Nat → Nat → Option (List Rustic.Pack.IndexBlob))
+    (store : List (Nat × Nat)) (files : List Rustic.Index.IndexFile) (readAll : Bool) :
+    Rustic.Index.repairIndex readHeader store files readAll =
+      (checkerAfter store files readAll).out ++
+        (if ((packReadHeader store files readAll).filterMap fun r =>
+              (readHeader r.1 r.2.1 r.2.2).map fun bl => ({ id := r.1, blobs := bl, size := none } : Rustic.Index.IndexPack)).isEmpty
+         then []
+         else [{ packs := (packReadHeader store files readAll).filterMap fun r =>
+                  (readHeader r.1 r.2.1 r.2.2).map fun bl => ({ id := r.1, blobs := bl, size := none } : Rustic.Index.IndexPack)
+                 packsToDelete := [] }]) := rfl
+
+/-- **unindexed_pack_in_read_header.**  For every repository listing, every list of index files (none, some lost, entries with
+wrong sizes, …) and both settings of `read_all`: a pack the repository lists and NO index entry names is in `pack_read_header`
+(without size hint) — the branch `into_pack_to_read` adds. -/
+theorem unindexed_pack_in_read_header (store : List (Nat × Nat)) (files : List Rustic.Index.IndexFile) (readAll : Bool)
+    (id size : Nat) (hs : (id, size) ∈ store) (hno : ∀ f ∈ files, ∀ pd ∈ f.allPacks, pd.1.id ≠ id) :
+    (id, none, size) ∈ packReadHeader store files readAll := by
+  rw [packReadHeader_split]
+  refine List.mem_append_right _ (List.mem_map.2 ⟨(id, size), ?_, rfl⟩)
+  exact foldl_repairFile_keeps_other readAll files _ hs hno
+
+/-- with all index files lost every pack of the repository is re-read -/
+theorem all_packs_in_read_header_of_no_index (store : List (Nat × Nat)) (readAll : Bool) (id size : Nat)
+    (hs : (id, size) ∈ store) : (id, none, size) ∈ packReadHeader store [] readAll :=
+  unindexed_pack_in_read_header store [] readAll id size hs (fun _ h => by cases h)
+
+/-- **repair_index_unindexed_requested_and_read.**  `repair_index` on any repository / index state: an un-indexed pack is in
+the argument of `warm_up_wait` AND its header is read (`nreads` ≥ 1) — with `warmup_before_read` (constructor
+`repairIndexOn`) the read follows the request, in both layouts and for every order of the reads.  The seeded change C16-4
+requests the warm-up from `fromIndex` only: the `example` below. -/
+theorem repair_index_unindexed_requested_and_read (store : List (Nat × Nat)) (files : List Rustic.Index.IndexFile)
+    (readAll : Bool) (nreads : Nat × Option Nat × Nat → Nat) (id size : Nat) (hs : (id, size) ∈ store)
+    (hno : ∀ f ∈ files, ∀ pd ∈ f.allPacks, pd.1.id ≠ id) (hn : 0 < nreads (id, none, size)) :
+    id ∈ (cmdOf (.repairIndexOn store files readAll nreads)).warm ∧
+      Call.partialRead id false ∈ (cmdOf (.repairIndexOn store files readAll nreads)).reads := by
+  have hm := unindexed_pack_in_read_header store files readAll id size hs hno
+  constructor
+  · simp only [cmdOf, repairIndexCmd, repairIndexRun, List.map_map, List.mem_map]
+    exact ⟨_, hm, rfl⟩
+  · simp only [cmdOf, repairIndexCmd, repairIndexRun, List.mem_flatMap, List.mem_map, List.mem_replicate]
+    exact ⟨(id, nreads (id, none, size)), ⟨_, hm, rfl⟩, by omega, rfl⟩
+
+/-- **repair_index_warm_before_read.**  Every repository listing × every index state × `read_all` × both layouts × every order
+of the header reads: each pack read that reaches the cold store was requested for warm-up before. -/
+theorem repair_index_warm_before_read (l : Layout) (store : List (Nat × Nat)) (files : List Rustic.Index.IndexFile)
+    (readAll : Bool) (nreads : Nat × Option Nat × Nat → Nat) (rs : List Call)
+    (hp : rs.Perm (cmdOf (.repairIndexOn store files readAll nreads)).reads) :
+    WarmBeforeRead (trace l (cmdOf (.repairIndexOn store files readAll nreads)).warm rs) :=
+  warm_then_reads l _ rs (fun x hx => repairIndex_reads_covered _ x (hp.mem_iff.1 hx))
+
+/-- the seeded change C16-4 (warm-up requested from `checker.packs_to_read` BEFORE `into_pack_to_read` extends it): index
+files lost, pack 7 is un-indexed, its header is read from the cold store without a request … -/
+example : ¬ WarmBeforeRead (trace .hotcold ((fromIndex [(7, 100)] [] false).map (·.1))
+    (cmdOf (.repairIndexOn [(7, 100)] [] false (fun _ => 1))).reads) := by
+  intro h
+  have := h [] 7 [] (by decide)
+  cases this
+
+/-- … while the code as it is requests it; a pack whose index entry has a wrong size (3 ≠ 100 after the header) comes from
+`fromIndex`, an un-indexed one from `unindexed`, a correctly indexed one is not read -/
+example : trace .hotcold (cmdOf (.repairIndexOn [(7, 100), (8, 50)] [] false (fun _ => 1))).warm
+      (cmdOf (.repairIndexOn [(7, 100), (8, 50)] [] false (fun _ => 1))).reads =
+    [.warm 7, .warm 8, .coldRead 7, .coldRead 8] := by decide
+
 theorem reads_covered (c : Command) : ∀ x ∈ (cmdOf c).reads, x.pack ∈ (cmdOf c).warm := by
   cases c with
   | restore hole limit r => exact restore_reads_covered hole limit r
   | prune idx => exact prune_reads_covered idx
   | repairIndex t => exact repairIndex_reads_covered t
+  | repairIndexOn store files readAll nreads => exact repairIndex_reads_covered _
   | checkReadData ps =>
     intro x hx
     simp only [cmdOf, checkReadDataCmd, List.mem_map] at hx ⊢
